@@ -53,6 +53,40 @@ def import_order():
     visit('__init__')
     return seen
 
+def comprehension_copy(stmts, tbl):
+    """other spellings of the copy inside the guard: [alias = cls.T;] cls.T = {k: COPY(SRC[k]) for k in SRC} /
+    {k: COPY(v) for k, v in SRC.items()} (per-key list copy) and dict(SRC) / {**SRC} / SRC.copy() / {k: v for k, v in SRC.items()}
+    (shallow copy).  Anything else: None (the caller fails closed)."""
+    src = ['cls.' + tbl]
+    stmts = list(stmts)
+    if len(stmts) == 2 and isinstance(stmts[0], ast.Assign) and len(stmts[0].targets) == 1 and isinstance(stmts[0].targets[0], ast.Name) \
+            and ast.unparse(stmts[0].value) == 'cls.' + tbl:
+        src.append(stmts[0].targets[0].id); stmts = stmts[1:]
+    if len(stmts) != 1 or not isinstance(stmts[0], ast.Assign) or [ast.unparse(t) for t in stmts[0].targets] != ['cls.' + tbl]: return None
+    v = stmts[0].value
+    def is_src(e): return ast.unparse(e) in src
+    def copy_of(e):
+        if isinstance(e, ast.Subscript) and isinstance(e.slice, ast.Slice) and e.slice.lower is None and e.slice.upper is None and e.slice.step is None: return e.value
+        if isinstance(e, ast.Call) and isinstance(e.func, ast.Name) and e.func.id == 'list' and len(e.args) == 1 and not e.keywords: return e.args[0]
+        if isinstance(e, ast.Call) and isinstance(e.func, ast.Attribute) and e.func.attr == 'copy' and not e.args and not e.keywords: return e.func.value
+        return None
+    if isinstance(v, ast.Call) and ((isinstance(v.func, ast.Name) and v.func.id == 'dict' and len(v.args) == 1 and not v.keywords and is_src(v.args[0]))
+                                    or (isinstance(v.func, ast.Attribute) and v.func.attr == 'copy' and not v.args and is_src(v.func.value))): return 'ShallowCopy'
+    if isinstance(v, ast.Dict) and v.keys == [None] and is_src(v.values[0]): return 'ShallowCopy'
+    if isinstance(v, ast.DictComp) and len(v.generators) == 1 and not v.generators[0].ifs and not v.generators[0].is_async and isinstance(v.key, ast.Name):
+        g = v.generators[0]
+        if isinstance(g.target, ast.Name) and is_src(g.iter) and v.key.id == g.target.id:
+            inner = copy_of(v.value)
+            if inner is not None and isinstance(inner, ast.Subscript) and is_src(inner.value) and ast.unparse(inner.slice) == g.target.id: return 'PerKeyListCopy'
+            if isinstance(v.value, ast.Subscript) and is_src(v.value.value) and ast.unparse(v.value.slice) == g.target.id: return 'ShallowCopy'
+        if isinstance(g.target, ast.Tuple) and len(g.target.elts) == 2 and all(isinstance(x, ast.Name) for x in g.target.elts) \
+                and isinstance(g.iter, ast.Call) and isinstance(g.iter.func, ast.Attribute) and g.iter.func.attr == 'items' and is_src(g.iter.func.value) and not g.iter.args \
+                and v.key.id == g.target.elts[0].id:
+            inner = copy_of(v.value)
+            if inner is not None and isinstance(inner, ast.Name) and inner.id == g.target.elts[1].id: return 'PerKeyListCopy'
+            if isinstance(v.value, ast.Name) and v.value.id == g.target.elts[1].id: return 'ShallowCopy'
+    return None
+
 def cow_shapes():
     cow = {}
     for f, clsname in (('constructor', 'BaseConstructor'), ('representer', 'BaseRepresenter'), ('resolver', 'BaseResolver')):
@@ -79,6 +113,8 @@ def cow_shapes():
                     cow[k] = 'PerKeyListCopy'
                 elif (k == 'KImplicit' and inner == ['cls.%s = cls.%s.copy()' % (tbl, tbl)]):
                     cow[k] = 'ShallowCopy'
+                elif comprehension_copy(first.body, tbl) is not None:
+                    cow[k] = comprehension_copy(first.body, tbl)
                 else:
                     raise TranslateError(f + '.py', first.lineno, 'a recognised copy-on-write block in ' + node.name, '; '.join(inner)[:80])
                 # the rest must write only through cls.<tbl>
